@@ -18,7 +18,10 @@ func init() {
 	const te = "pkg/op/token_exchange.go"
 	zero := map[string]string{"<*ast.MapType>": "(Go.nil : TEClaims)", "*oidc.AccessTokenClaims": "(Go.nil : TEATClaims)"}
 	ren := map[string]string{
-		"strings.Split()":                "TE.split",
+		"strings.Split()": "TE.split",
+		// deep4: the other ways of cutting a string the opaque-token parser could be written with (all list-based, Model/ExchangeTE.lean)
+		"strings.LastIndex()": "TE.lastIndex", "strings.Index()": "TE.index", "strings.Cut()": "TE.cut", "strings.SplitN()": "TE.splitN",
+		"strings.Count()":                "TE.count",
 		"VerifyAccessToken()":            "Hand.teVerifyAccessToken now",
 		"VerifyIDTokenHint()":            "Hand.teVerifyIDTokenHint now",
 		"unimplementedGrantError()":      "Hand.unimplementedGrantError",
@@ -75,7 +78,7 @@ func init() {
 					Rename: map[string]string{"AllTokenTypes": "Gen.allTokenTypes"}},
 				{File: te, Name: "getTokenIDAndClaims", Lean: "getTokenIDAndClaims",
 					Params: []string{"(userinfoProvider : TEProvider)", "(accessToken : String)"}, Ret: RetVal, RetType: "(String × String × TEATClaims × Bool)",
-					Rename: ren, ZeroOf: zero},
+					Rename: ren, ZeroOf: zero, StrSlices: "TE", TupleAssign: true},
 				{File: te, Name: "GetTokenIDAndSubjectFromToken", Lean: "GetTokenIDAndSubjectFromToken",
 					Params: []string{"(exchanger : TEProvider)", "(token : String)", "(tokenType : String)", "(isActor : Bool)"},
 					Ret:    RetVal, RetType: "(String × String × TEClaims × Bool)", Rename: ren, ZeroOf: zero, InitResults: true,
